@@ -263,3 +263,41 @@ package cisco
 
 // text handed to the device, a file or a log is never interpreted as a printf format
 //vc:constformat[C01,C02,C18]
+
+// ---- C08: sub-commands are issued inside the configuration mode of their own parent ----
+// devMode is the sub-mode the device is in after the commands emitted so far
+// ("" = global configuration mode, otherwise the printed parent command): a
+// command that has sub-commands enters its mode, "exit" and every other
+// toplevel command leave it, a sub-command stays in it. s.subCmdOf is what
+// the planner believes; the belief may be "" (unknown: the parent is then
+// written again) but never a mode the device is not in. Each of the four
+// functions that emit commands and maintain s.subCmdOf preserves this and
+// emits a sub-command only in its parent's mode.
+//vc:ghost var devMode string
+//vc:spec macro modeBeliefSound(s *State) bool = s.subCmdOf == "" || s.subCmdOf == devMode
+
+//vc:func (*State).setCmdConfMode
+//vc:  hypothesis[C08] printedSup != "" && modeBeliefSound(s)
+//vc:  assign after "s.addChange("#1 devMode = ""
+//vc:  assign after "s.addChange("#2 devMode = printedSup
+//vc:  ensures[C08] @deviceInParentMode s.subCmdOf == printedSup && devMode == printedSup
+
+//vc:func (*State).addToplevel
+//vc:  assign after "s.addChange(c)" devMode = ""
+//vc:  ensures[C08] @modeBeliefSound modeBeliefSound(s) && devMode == ""
+
+//vc:func (*State).addCmd
+//vc:  hypothesis[C08] modeBeliefSound(s)
+//vc:  hypothesis[C08] @subCommandsOnlyUnderModeCommands len(c.sub) > 0 ==> c.typ.sub != nil && c.subCmdOf == nil
+//vc:  assert[C08] at "s.addChange(pr)" @subCommandInsideParentMode c.subCmdOf != nil ==> devMode == s.subCmdOf
+//vc:  assign after "s.addChange(pr)" devMode = ite(c.subCmdOf != nil, devMode, ite(c.typ.sub != nil, pr, ""))
+//vc:  invariant[C08] 1 "for _, sub := range c.sub" len(c.sub) > 0 ==> devMode == pr && s.subCmdOf == pr
+//vc:  assert[C08] at "s.addChange(s.printNetspocCmd(sub))" @subCommandsFollowTheirParent devMode == pr
+//vc:  ensures[C08] @modeBeliefSound modeBeliefSound(s)
+
+//vc:func (*State).delCmds
+//vc:  hypothesis[C08] modeBeliefSound(s)
+//vc:  invariant[C08] 1 "for _, c := range l" @modeBeliefSound modeBeliefSound(s)
+//vc:  assert[C08] at "s.addChange("#1 @subCommandDeletedInsideParentMode c.subCmdOf != nil ==> devMode == c.subCmdOf.orig
+//vc:  assign after "s.addChange("#1 devMode = ite(c.subCmdOf != nil, devMode, "")
+//vc:  ensures[C08] @modeBeliefSound modeBeliefSound(s)
